@@ -170,8 +170,8 @@ func propC09(r *Run, w *World) {
 	{
 		undo := autoAlias(x.coalesce)
 		okE := false
-		for _, ret := range returnsOf(x.coalesce) {
-			if HoldsAt(ret.Block(), "len(filterEOE#1) == 0") {
+		for _, ret := range retEdges(x.coalesce) {
+			if ret.Holds("len(filterEOE#1) == 0") {
 				okE = isNilConst(ret.Results[0]) && !isNilConst(ret.Results[1])
 			}
 		}
@@ -184,10 +184,26 @@ func propC09(r *Run, w *World) {
 				continue
 			}
 			ret := p.Return()
+			// the branch that tests the SYSCALL record found by the loop (a phi of the loop) against nil
 			noSys := false
-			for _, l := range p.Lits() {
-				if strings.HasSuffix(l, " == nil") && strings.HasPrefix(l, "φ{") {
-					noSys = true
+			for _, e := range p.Events {
+				ifi, isIf := e.Instr.(*ssa.If)
+				if e.Kind != EvCond || !isIf {
+					continue
+				}
+				c := ifi.Cond
+				pol := e.Pol
+				for {
+					if u, ok := c.(*ssa.UnOp); ok && u.Op == token.NOT {
+						c, pol = u.X, !pol
+						continue
+					}
+					break
+				}
+				if bo, ok := c.(*ssa.BinOp); ok && (bo.Op == token.EQL || bo.Op == token.NEQ) && isNilConst(bo.Y) {
+					if _, isPhi := bo.X.(*ssa.Phi); isPhi && (bo.Op == token.EQL) == pol {
+						noSys = true
+					}
 				}
 			}
 			if noSys {
